@@ -340,6 +340,8 @@ class AbsEval(ConstEval):
                 raise AbsRaise("AttributeError", f"None.{e.func.attr}")
             if isinstance(base, dict) and e.func.attr == "get" and args and isinstance(args[0], Res):
                 return base.get(args[0], args[1] if len(args) > 1 else None)
+            if isinstance(base, str) and e.func.attr == "join" and len(args) == 1 and isinstance(args[0], (list, tuple)) and any(is_abs(a) for a in args[0]):
+                return Res("join", base, list(args[0]))
             if isinstance(base, (list, dict, str, tuple, set, bytes, bytearray)) and any(is_abs(a) for a in args):
                 if e.func.attr in ("append", "add", "extend", "insert", "update", "setdefault", "index", "count"):
                     try:
